@@ -30,6 +30,8 @@ REQUIRED_CLASSES = ["nontrivial", "accept", "reject", "zero_area_rect", "zero_le
 QUICK_SHARDS = 4
 
 plot_utils = sut.load("plot_utils")
+OPTION_PROBES = [(plot_utils.clip_segment, ["segment", "bounds"], [[[-2.0, 1.0], [7.0, 4.0]], [[0.0, 0.0], [5.0, 5.0]]])]
+
 LINE_BUDGET = 10000
 
 
